@@ -364,6 +364,7 @@ fn file_quiet(bytes: &[u8]) -> Result<(), String> {
         Ok(())
     })();
     let _ = std::fs::remove_file(&path);
+    let _ = std::fs::remove_dir(&dir);     // succeeds when no other thread has a file in it
     r
 }
 
